@@ -82,14 +82,51 @@ func (o *SortedMap) Swap(i, j int)
   modifies memU
   ensures [C05,C06,C12,C17] o.Key[i] == old(o.Key[j]) && o.Key[j] == old(o.Key[i]) && o.Value[i] == old(o.Value[j]) && o.Value[j] == old(o.Value[i])
   ensures [C05,C06,C12,C17] forall k :: 0 <= k && k < len(o.Key) && k != i && k != j ==> o.Key[k] == old(o.Key[k]) && o.Value[k] == old(o.Value[k])
+  -- ... so that the entries stay the map's entries, whatever sequence of Swaps sort.Stable performs
+  assert [C05,C06,C12,C17] Pairs(o) ==> ment(gsm, o.Key[i], o.Value[i]) && ment(gsm, o.Key[j], o.Value[j]) at entry
+  ensures [C05,C06,C12,C17] old(Pairs(o)) ==> Pairs(o)
 
 func (o *SortedMap) Len() (n int)
   modifies nothing
   ensures n == len(o.Key)
 
--- that sort.Stable orders the pairs by Less, keeps them pairs, and that the result holds every entry of the map
--- once, is assumed (the body appends to slices of reflect.Value, which the engine does not model)
-assume func Sort(mapValue reflect.Value) (r *SortedMap)
-  modifies alloc, memU
-  ensures r != nil && len(r.Key) == len(r.Value)
+-- ment(m, k, v): the map m holds an entry with key k and value v (specification predicate; entries, not lookups: a
+-- key that is not equal to itself, a NaN, cannot be looked up but is an entry all the same)
+assume pure func ment(m reflect.Value, k reflect.Value, v reflect.Value) (r bool)
+  ensures r ==> k.IsValid() && v.IsValid()
+
+-- the map being sorted, and the entry the iterator stands on
+ghostvar gsm u
+ghostvar gik u
+ghostvar giv u
+assume func (v reflect.Value) MapRange() (it *reflect.MapIter)
+  modifies nothing
+assume func (it *reflect.MapIter) Next() (ok bool)
+  modifies gik, giv
+  ensures ok ==> ment(gsm, gik, giv)
+assume func (it *reflect.MapIter) Key() (k reflect.Value)
+  modifies nothing
+  ensures k == gik
+assume func (it *reflect.MapIter) Value() (v reflect.Value)
+  modifies nothing
+  ensures v == giv
+
+pred Pairs(o *SortedMap) = len(o.Key) == len(o.Value) && (forall t :: 0 <= t && t < len(o.Key) ==> ment(gsm, o.Key[t], o.Value[t]))
+
+-- sort.Stable reaches the data through Len, Less and Swap only (assumed)
+assume func sort.Stable(data sort.Interface)
+  modifies memU
+
+-- Sort hands back the entries of the map, each key with ITS value. Proved: the loop collects entries pairwise; Swap
+-- keeps pairs (its contract). Assumed: sort.Stable reaches the data through Len, Less and Swap only, so what holds
+-- before it and is preserved by Swap holds after it (the assume below); that it orders by Less.
+func Sort(mapValue reflect.Value) (r *SortedMap)
+  modifies alloc, memU, gsm, gik, giv
+  may-panic
+  ghost gsm = mapValue at entry
+  loop 1 invariant gsm == mapValue && len(key) == len(value) && ref(key) != ref(value) && (forall j :: 0 <= j && j < len(key) ==> ment(mapValue, key[j], value[j]))
+  assert [C05,C06,C12,C17] Pairs(sorted) before "sort.Stable(sorted)"
+  assume Pairs(sorted) after "sort.Stable(sorted)"
+  ensures mapValue.Kind() == 21 ==> r != nil && len(r.Key) == len(r.Value)
+  ensures [C05,C06,C12,C17] mapValue.Kind() == 21 ==> (forall j :: 0 <= j && j < len(r.Key) ==> ment(mapValue, r.Key[j], r.Value[j]))
 @*/
